@@ -44,7 +44,12 @@ class Sim:
         self.timers = []
         self.tseq = 0
         self.steps = 0
-        self.cps = set(cps)
+        # change points: (thread name, site, n) = pre-empt when that thread reaches that site for the n-th time
+        self.watch = {}
+        for tname, site, n in cps:
+            self.watch.setdefault((tname, _site(site)), set()).add(n)
+        self.occ = {}
+        self.step_cost = 1  # every yield point costs one simulated microsecond, so sleepers wake while others are mid-run
         self.record_sites = record_sites
         self.sites = []
         self.marker = None  # step at which the workload proper started
@@ -134,13 +139,27 @@ class Sim:
             return
         me = self.current
         self.steps += 1
+        self.now += self.step_cost
         if self.steps > self.max_steps:
             if self.failure is None:
                 self.failure = ("step-limit", "more than %d steps" % self.max_steps)
             raise StepLimit()
+        hit = False
         if self.record_sites:
-            self.sites.append((self.steps, site))
-        if self.steps in self.cps:
+            key = (me.name, site)
+            c = self.occ.get(key, 0) + 1
+            self.occ[key] = c
+            self.sites.append((self.steps, me.name, site, c))
+        elif self.watch:
+            key = (me.name, site)
+            ns = self.watch.get(key)
+            if ns is not None:
+                c = self.occ.get(key, 0) + 1
+                self.occ[key] = c
+                hit = c in ns
+        if self.timers and self.timers[0][0] <= self.now:
+            self._fire_due()
+        if hit:
             if self.drift_p and self.rng.random() < self.drift_p:
                 self.now += self.rng.choice([1000, 50_000, 1_000_000])  # the descheduled thread loses time
                 self.faults["clock_drift"] += 1
@@ -605,23 +624,37 @@ def unpatch(saved):
 
 # ------------------------------------------------------------------ schedule search helpers
 
-def choose_cps(rng, sites, marker, total_steps, k, site_first_p=0.7):
-    """k change points: 70% by picking a distinct (file, line) site uniformly and then one of its
-    occurrences (so short race windows are not diluted by long phases), 30% uniformly over steps."""
-    by_site = {}
-    for step, site in sites:
+def _site(site):
+    return tuple(site) if isinstance(site, list) else site
+
+
+def choose_cps(rng, sites, marker, total_steps, k, site_first_p=0.7, focus=(), focus_p=0.75):
+    """k change points (thread, site, n-th occurrence in that thread): 70% by picking a distinct (thread, site)
+    uniformly and then one of its occurrences (so a two-line race window is not diluted by long phases), 30%
+    uniformly over the recorded steps.  Addressing a change point by thread-local occurrence keeps it meaningful
+    after an earlier change point has reordered the run."""
+    by_key = {}
+    pool = []
+    for step, tname, site, c in sites:
         if step > marker:
-            by_site.setdefault(site, []).append(step)
-    keys = sorted(by_site, key=repr)
-    cps = set()
+            by_key.setdefault((tname, site), []).append(c)
+            pool.append((tname, site, c))
+    keys = sorted(by_key, key=repr)
+    # sites in the files that hold the mechanism under test get most of the change points
+    fkeys = [k_ for k_ in keys if isinstance(k_[1], tuple) and any(f in k_[1][0] for f in focus)] if focus else []
+    cps = []
     for _ in range(k):
-        if keys and rng.random() < site_first_p:
-            s = keys[rng.randrange(len(keys))]
-            occ = by_site[s]
-            cps.add(occ[rng.randrange(len(occ))] + rng.choice((0, 0, 1)))
-        elif total_steps > marker:
-            cps.add(rng.randrange(marker + 1, total_steps + 20))
-    return sorted(cps)
+        if not pool:
+            break
+        if rng.random() < site_first_p:
+            ks = fkeys if (fkeys and rng.random() < focus_p) else keys
+            key = ks[rng.randrange(len(ks))]
+            occ = by_key[key]
+            cps.append([key[0], list(key[1]) if isinstance(key[1], tuple) else key[1], occ[rng.randrange(len(occ))]])
+        else:
+            t, s_, c = pool[rng.randrange(len(pool))]
+            cps.append([t, list(s_) if isinstance(s_, tuple) else s_, c])
+    return cps
 
 
 import logging
@@ -630,7 +663,7 @@ logging.getLogger("Rx").setLevel(logging.ERROR)
 
 def run_sim(body, seed, cps=(), record=False, spurious_p=0.0, drift_p=0.0, trace_extra=(), wall=30.0, max_steps=400000, setup=None):
     """Run `body(sim, shim)` as the main workload thread under a fresh simulator with reactivex patched."""
-    sim = Sim(seed, cps, record, spurious_p, drift_p, max_steps, trace_extra)
+    sim = Sim(seed, cps or (), record, spurious_p, drift_p, max_steps, trace_extra)
     shim = make_shim(sim)
     saved = patch(sim, shim)
     try:
@@ -654,12 +687,13 @@ def explore(sc, body_factory, out, **kw):
     Returns (sim, cps).  body_factory() must return a fresh body(sim, shim) each time."""
     sched = sc["sched"]
     cps = sc.get("cps")
+    focus = kw.pop("focus", ())
     spurious = sched.get("spurious", 0.0)
     drift = sched.get("drift", 0.0)
     if cps is None:
         if sched.get("k", 0) > 0:
             dry = run_sim(body_factory(), sched["seed"], (), record=True, **kw)
-            cps = choose_cps(random.Random(sched["seed"] ^ 0x5DEECE66D), dry.sites, dry.marker or 0, dry.steps, sched["k"])
+            cps = choose_cps(random.Random(sched["seed"] ^ 0x5DEECE66D), dry.sites, dry.marker or 0, dry.steps, sched["k"], focus=focus)
             out.evals += 1
         else:
             cps = []
